@@ -224,6 +224,19 @@ var NewDailySink = func(dir, leader, trailer string) io.Writer { return io.Disca
 
 // ----- sync shims (used by package vsync) -----
 
+// RWLock is MuLock for the write side of an RWMutex (its waiting blocks later readers).
+func RWLock(key interface{}) bool {
+	s := cur
+	if s == nil {
+		return false
+	}
+	if s.running.aborting {
+		return true
+	}
+	s.park(&op{kind: opLock, mu: s.muOf(key), rw: true})
+	return true
+}
+
 // MuLock acquires the write lock of the mutex identified by key.
 func MuLock(key interface{}) bool {
 	s := cur
@@ -433,4 +446,16 @@ func (sl *Sel) Do() int {
 		}
 	}
 	return i
+}
+
+// Len is len(ch) for a channel: the number of values buffered in the model.
+func Len[C ~chan T | ~<-chan T | ~chan<- T, T any](ch C) int {
+	s := cur
+	if s == nil {
+		return reflect.ValueOf(ch).Len()
+	}
+	if cs, ok := s.chans[chanKey(ch)]; ok {
+		return len(cs.buf)
+	}
+	return 0
 }
